@@ -774,6 +774,20 @@ def b5_b6(run: Run, prog, cy, cfuncs, shapes, handoffs, sites):
         shp = dict(shapes.get(h.cname, {}))
         for name, cnt in it.alloca.items():
             shp[name] = ([cnt], "alloca", name)
+            # B9: a stack allocation whose size grows with an extent of the data
+            # has no bound: the stack is a fixed few MB, alloca does not fail but
+            # moves the stack pointer past its end
+            grows = sorted(cnt.symbols() & {n for n, t in cf.params if is_int_type(t)})
+            fixed = cnt.is_const()
+            run.oblige("B9", f"{h.cname}:{name}", fixed or not grows, sample={
+                "where": cf.where, "elements": str(cnt)})
+            if grows:
+                run.add("B9", f"{h.cname}/{name}/stack-allocation", cf.where,
+                        f"{h.cname}: `{name}` is allocated on the stack (alloca) with "
+                        f"{cnt} elements, i.e. proportional to the parameter(s) {grows} "
+                        f"that the callers do not bound: for a long series the "
+                        f"allocation runs past the end of the stack and the first "
+                        f"accesses land outside it")
         # sizes and loop bounds: extent parameters
         extents = set()
         for base, (dims, kind, arr) in shp.items():
@@ -1404,6 +1418,8 @@ def check(run: Run, prog: Program, cy: CyProgram, sites):
     run.rule("B2", "every raw pointer hand-off casts to an element type of the "
              "array's item size, and the C definition uses that width")
     run.rule("B3", "arrays whose raw pointer is handed to C are C-contiguous")
+    run.rule("B9", "no stack allocation (alloca) whose size grows with an extent of the "
+             "data")
     run.rule("B4", "every extent the C code uses is tied to the shape of the buffer it "
              "indexes at the wrapper or at each Python call site")
     run.rule("B5", "every dereference in the C functions lies inside its buffer for all "
